@@ -281,6 +281,10 @@ def r6(idx, rep):
             bad = bad or f"projection {proj}: {[p.result for p in ps]}"
             continue
         l1, r1, snap, l2, r2 = ps[0].result[1]
+        if l1 != ["a", "b", "c"] or l2 != ["d", "e", "f"]:
+            bad = bad or (f"projection {proj}: limit_collection changes the line it is given ({['a', 'b', 'c']} became {l1}): the line belongs to the caller — in a breadth-first "
+                          "run the members after this one, and the caller of next_by_line, would see the narrowed row")
+            continue
         want1 = l1 if not proj else [l1[i] for i in proj]
         want2 = l2 if not proj else [l2[i] for i in proj]
         if snap != want1 or r2 != want2:
